@@ -142,15 +142,37 @@ def build_harnesses(specs):
         return {k: f.result() for k, f in futs.items()}
 
 
+class build_lock:
+    """re-entrant (per process) exclusive lock on the Lean tree: translators → lake build → axiom audit of one
+    check must see one consistent set of Gen/*.lean and .olean files even when several checks run at once
+    (possibly against different trees through VERIF_REPO)."""
+    _depth = 0
+    _fh = None
+
+    def __enter__(self):
+        cls = build_lock
+        if cls._depth == 0:
+            os.makedirs(BUILD, exist_ok=True)
+            cls._fh = open(os.path.join(BUILD, '.lake.lock'), 'w')
+            fcntl.flock(cls._fh, fcntl.LOCK_EX)
+        cls._depth += 1
+        return self
+
+    def __exit__(self, *a):
+        cls = build_lock
+        cls._depth -= 1
+        if cls._depth == 0:
+            fcntl.flock(cls._fh, fcntl.LOCK_UN)
+            cls._fh.close()
+            cls._fh = None
+        return False
+
+
 def lake_build(targets):
-    """lake build under a file lock.  Returns (ok, output)."""
-    lock = open(os.path.join(BUILD, '.lake.lock'), 'w')
-    fcntl.flock(lock, fcntl.LOCK_EX)
-    try:
+    """lake build under the build lock.  Returns (ok, output)."""
+    with build_lock():
         r = subprocess.run(['lake', 'build'] + list(targets), cwd=LEAN, capture_output=True, text=True)
         return r.returncode == 0, r.stdout + r.stderr
-    finally:
-        fcntl.flock(lock, fcntl.LOCK_UN)
 
 
 def run_translators():
